@@ -165,6 +165,15 @@ except Exception as e:
 PYEOF
   else
     echo "platform 386: build failed (pass skipped)"
+    python3 - "$OUTDIR/evidence/$PROP.json" <<'PYEOF'
+import json,sys
+try:
+    ev=json.load(open(sys.argv[1]))
+    ev["coverage"]["platform_386"]={"skipped":"the GOARCH=386 build of the monitor against this tree failed; the pass did not run"}
+    json.dump(ev,open(sys.argv[1],"w"),indent=1)
+except Exception as e:
+    print("could not record the skipped platform pass:",e)
+PYEOF
   fi
   rm -rf "$PDIR"
 fi
